@@ -1,6 +1,6 @@
 (* Pinned statements of C04 (generated once by tools/mkpins.py from coq/props/C04.v, then committed). *)
 From DV Require Import Model.Base Model.Parser Model.Header Model.Readers Spec.NameSpec Spec.RecordSpec Proofs.Hoare Proofs.HeaderBits
-  Proofs.SummaryBits Proofs.ReadersLabels Proofs.QuestionSpec Proofs.EdnsFacts Proofs.WalkSkip Proofs.EdnsPlain Spec.PacketSpec Proofs.HeaderFields props.C04.
+  Proofs.SummaryBits Proofs.ReadersLabels Proofs.QuestionSpec Proofs.EdnsFacts Proofs.WalkSkip Proofs.EdnsPlain Spec.PacketSpec Proofs.HeaderFields Model.NameCheck Model.Uncompress Model.Mutate Model.Gen Proofs.NameText Proofs.QueryFresh props.C04.
 Local Open Scope N_scope.
 Check (C04_flags_word : forall w x i, w < 65536 ->
   N.testbit (w_flags w x) i =
@@ -41,3 +41,16 @@ Print Assumptions C04_summary_of_opt_record.
 Check (C04_id_opcode_rcode : forall p t w, bytes_ok p -> u16_at p 0 t -> u16_at p 2 w ->
   pk_tid p = Ok t /\ pk_rcode p = Ok (w mod 16) /\ pk_opcode p = Ok ((w / 2048) mod 16)).
 Print Assumptions C04_id_opcode_rcode.
+Check (C04_query_getters : forall tid name qt v, (tid < 65536)%N -> (qt < 65536)%N -> gen_query tid name qt CLASS_IN = Ok v ->
+  exists ls, Forall label_ok ls /\ (name = dotted ls \/ name = dots ls \/ (name = [46%N] /\ ls = [])) /\
+    let wire := wire_of_labels ls in
+    let v' := pp_with_cached v (Some (wire, qt, CLASS_IN)) in
+    pp_question_raw0 v = Ok (v', Some (wire, qt, CLASS_IN)) /\
+    pp_question_raw v = Ok (v', Some (labels_flat ls, qt, CLASS_IN)) /\
+    pp_question v = Ok (Some (ascii_lowercase (dotted ls), qt, CLASS_IN)) /\
+    pp_qtype_qclass v = Ok (Some (qt, CLASS_IN)) /\
+    pp_question_raw0 v' = Ok (v', Some (wire, qt, CLASS_IN)) /\
+    pp_question_raw v' = Ok (v', Some (labels_flat ls, qt, CLASS_IN)) /\
+    pp_question v' = Ok (Some (ascii_lowercase (dotted ls), qt, CLASS_IN)) /\
+    pp_qtype_qclass v' = Ok (Some (qt, CLASS_IN))).
+Print Assumptions C04_query_getters.
